@@ -463,6 +463,7 @@ fn explore(ctx: &Ctx, rep: &mut Report) {
         });
         rep.merge(r);
         rep.mark_exhaustive(&fam, &format!("a field of every length in {} lengths (quick: boundaries of 64..1025; thorough: 1..=340 and larger) in 10 table shapes (alone, first, middle, last, quoted, repeated)", lens.len()));
+        rep.mark_exhaustive(&format!("{fam}/cursor"), "BFS to fixpoint: every operation applied at every reachable position");
     }
     rep.extra.insert("configurations".into(), json!(CFGS.iter().map(|c| c.to_json()).collect::<Vec<_>>()));
     rep.extra.insert("alphabets".into(), json!({"adqn": format!("other,delimiter,quote,separator up to length {len4}"), "abdqn": format!("two others + specials up to length {len5}")}));
